@@ -1,0 +1,41 @@
+//go:build verif
+
+// Specification functions used by the //@ contracts in verif_contracts.go.
+// They are ordinary, pure Go: the verifier translates them through the same
+// path as the code under proof, and the replay harness executes them.
+
+package sipsp
+
+// forall reports whether f(k) holds for every k in [lo, hi).
+// The verifier treats a call as a universal quantifier.
+func forall(lo, hi int, f func(k int) bool) bool {
+	for k := lo; k < hi; k++ {
+		if !f(k) {
+			return false
+		}
+	}
+	return true
+}
+
+// exists reports whether f(k) holds for some k in [lo, hi).
+func exists(lo, hi int, f func(k int) bool) bool {
+	for k := lo; k < hi; k++ {
+		if f(k) {
+			return true
+		}
+	}
+	return false
+}
+
+// bufOK is the documented size limit of a parse buffer.
+func bufOK(b []byte) bool { return len(b) <= 65535 }
+
+func isWS(c byte) bool   { return c == ' ' || c == '\t' }
+func isCRLF(c byte) bool { return c == '\r' || c == '\n' }
+func isLWSc(c byte) bool { return c == ' ' || c == '\t' || c == '\r' || c == '\n' }
+func isDigit(c byte) bool { return '0' <= c && c <= '9' }
+
+// within reports that field f lies inside [0, hi].
+func within(f PField, hi int) bool { return int(f.Offs)+int(f.Len) <= hi }
+
+func fend(f PField) int { return int(f.Offs) + int(f.Len) }
